@@ -47,6 +47,17 @@ CLAIMED = {
              "enumeration_exact: iterating from cookie 0 with any limits returns every live entry exactly once and terminates; correspondence on every listing reply + implementation-side paging oracle.",
         design_ref="DESIGN.md 5/C13", note="trusted: Lean kernel, reference model of dir.Apply/ApplyEnts byte accounting (validated by correspondence), harness",
         technique="Lean 4 proof (induction over slot lists) + correspondence"),
+    "C17": dict(category="proof",
+        text="Lean theorems on a transliteration of simple/ops.go + inode.go: WRITE/READ/SETATTR refine the specification 'a fixed set of files, each a byte string of at most 4096 bytes' "
+             "(acceptance conditions exact for all 64-bit offsets and counts, content equations, end-of-file flag, zero fill, no exposure after shrink), invalid inodes refused, "
+             "invariant preserved, per-file objects disjoint; correspondence on all procedures with exact status codes. Crash atomicity and linearizability: pending (journal-level).",
+        design_ref="DESIGN.md 5/C17", note="trusted: Lean kernel, hand-written transliteration (validated by correspondence), harness",
+        technique="Lean 4 refinement proof + correspondence"),
+    "C18": dict(category="proof",
+        text="Lean theorems on the key/value model: MultiPut is all-or-nothing and one journal transaction, get_latest over arbitrary histories (read your writes), coinciding range guards; "
+             "correspondence on sequences incl. journal-capacity boundaries. Crash durability and concurrent linearizability: pending (journal-level).",
+        design_ref="DESIGN.md 5/C18", note="trusted: Lean kernel, hand-written model (validated by correspondence), harness",
+        technique="Lean 4 proof (history induction) + correspondence"),
     "C19": dict(category="proof",
         text="Lean theorems over announced values regenerated by running the real FSINFO/PATHCONF: name_max, maxfilesize, wtmax are exactly the model's acceptance bounds, requests beyond "
              "are refused without effect, wtmax fits the journal (arithmetic); correspondence + implementation-side probe at limit and limit+1.",
